@@ -126,9 +126,14 @@ class DiscreteFourierTransformBase(Operator):
             impl = domain.tspace.impl
 
             shape = np.atleast_1d(ran_shape)
+            # In axes of length 1, the single node cannot lie on both
+            # boundaries, a cell of size 1 around it is used instead
+            single = (shape == 1)
             range = uniform_discr(
-                [0] * len(shape), shape - 1, shape, ran_dtype, impl,
-                nodes_on_bdry=True, exponent=conj_exponent(domain.exponent))
+                np.where(single, -0.5, 0.0), np.where(single, 0.5, shape - 1),
+                shape, ran_dtype, impl,
+                nodes_on_bdry=[not sgl for sgl in single],
+                exponent=conj_exponent(domain.exponent))
 
         else:
             if range.shape != ran_shape:
